@@ -1,6 +1,7 @@
 import OrsoVerif.Model.GroupBy
 import OrsoVerif.Model.GroupByX
 import OrsoVerif.Model.GroupByIR
+import OrsoVerif.Model.GroupByEq
 import OrsoVerif.Generated.GroupByCode
 /-!
 # C12 — `group_by.py` read statement by statement
@@ -37,6 +38,8 @@ structure Program where
   key : KeyExpr
   registers : Bool
   value : ValExpr
+  /-- how the position of a requested column is found -/
+  colIndex : ColIndexExpr
   yieldGuards : List Guard
   via : RowsVia
   collect : CollectExpr
@@ -60,6 +63,7 @@ def source : Program :=
   { key := Gen.GroupByCode.groupKey
     registers := Gen.GroupByCode.mapRegisters
     value := Gen.GroupByCode.mapValue
+    colIndex := Gen.GroupByCode.collectIndex
     yieldGuards := Gen.GroupByCode.mapYieldGuards
     via := Gen.GroupByCode.rowsVia
     collect := Gen.GroupByCode.collectColumns
@@ -82,6 +86,9 @@ inductive AVal where
   | none
   | int (i : Int)
   | ratio (sum : Int) (n : Nat)
+  /-- `sum / n` in float arithmetic (`int / int`, no `Decimal` operand): the double nearest to the
+  quotient, which is the quotient itself only when that is representable — not beyond `2**53` -/
+  | fratio (sum : Int) (n : Nat)
   | err (cls : String)
   deriving DecidableEq, Repr
 
@@ -95,6 +102,7 @@ def AVal.toAgg : AVal → Agg
   | .none => .null
   | .int i => .int i
   | .ratio s n => .ratio s n
+  | .fratio s n => .ratio s n  -- rendered as the quotient it approximates
   | .err _ => .null
 
 def AVal.isErr : AVal → Bool
@@ -106,6 +114,7 @@ def AVal.falsy : AVal → Bool
   | .none => true
   | .int i => i = 0
   | .ratio s _ => s = 0
+  | .fratio s _ => s = 0
   | .err _ => false
 
 /-- The values as numbers, when none of them is null. -/
@@ -113,6 +122,12 @@ def clean : List (Option Int) → Option (List Int)
   | [] => some []
   | none :: _ => none
   | some v :: vs => (clean vs).map (v :: ·)
+
+/-- `decimal.Decimal(…)`: a division with such an operand is exact (28 significant digits, modelled as
+exact); `int / int` is float division. -/
+def isDec : AExpr → Bool
+  | .decimal _ => true
+  | _ => false
 
 /-- The meaning of an aggregator body on the list `column_values.get(col, [])`. -/
 def evalA : AExpr → List (Option Int) → AVal
@@ -146,7 +161,9 @@ def evalA : AExpr → List (Option Int) → AVal
   | .div a b, vs =>
     match evalA a vs, evalA b vs with
     | .int s, .int n =>
-      if 0 < n then .ratio s n.toNat else if n < 0 then .ratio (-s) (-n).toNat else .err "ZeroDivisionError"
+      if 0 < n then (if isDec a || isDec b then .ratio s n.toNat else .fratio s n.toNat)
+      else if n < 0 then (if isDec a || isDec b then .ratio (-s) (-n).toNat else .fratio (-s) (-n).toNat)
+      else .err "ZeroDivisionError"
     | .err c, _ => .err c
     | _, .err c => .err c
     | _, _ => .err "TypeError"
@@ -383,10 +400,45 @@ def pyHashKey (k : List PyVal) : List PyVal :=
 def identOf {κ : Type} (h : κ → κ) : KeyExpr → κ → κ
   | .tuple, k => k
   | .hashTuple, k => h k
+  | .typedTuple, k => k
+
+/-- Python's `==` of the identities of two groups whose keys are `a` and `b`, given `==` on keys
+(`eqv`), the Python types of the key values (`ty`) and the hash (`h`): the dictionaries `_group_keys`
+and `column_value_map` find a group by it.  `(type(x), x) == (type(y), y)` needs the same type *and*
+`x == y`. -/
+def identEq {κ τ : Type} [DecidableEq κ] [DecidableEq τ] (eqv : κ → κ → Bool) (ty : κ → τ) (h : κ → κ) :
+    KeyExpr → κ → κ → Bool
+  | .tuple, a, b => eqv a b
+  | .hashTuple, a, b => decide (h a = h b)
+  | .typedTuple, a, b => decide (ty a = ty b) && eqv a b
+
+/-- What `hash` leaves of a key value as `==` sees it: an integral number is hashed like the integer
+(`hash(1.0) == hash(1) == hash(True)`), everything else counts as hashed perfectly. -/
+def hashC : CKey → CKey
+  | .num m e => if 0 ≤ e then dyadic (pyIntHash (m * 2 ^ e.toNat)) 0 else .num m e
+  | c => c
+
+/-- The identity of a group as the dictionaries of `_map` / `aggregate` see it when key values may be
+equal without being written alike: two identities are the same dictionary key iff these are equal.
+`tuple(…)`: the values as `==` sees them; `hash(tuple(…))`: their hashes; `(type(x), x)` pairs: the
+Python type next to the value. -/
+def identKeyOf : KeyExpr → List PyVal → List (Nat × CKey)
+  | .tuple, k => k.map fun v => (0, canonVal v)
+  | .hashTuple, k => k.map fun v => (0, hashC (canonVal v))
+  | .typedTuple, k => k.map fun v => (pyType v, canonVal v)
+
+/-- The position `_map` computes for the requested column `c` (`none`: `-1`). -/
+def posOf : ColIndexExpr → String → List String → Option Nat
+  | .indexIfPresent, c, columns => index c columns
+  | .getDefault, c, columns => index c columns
+  | .getOrMinusOne, c, columns =>
+    match index c columns with
+    | some 0 => none
+    | p => p
 
 /-- The value `_map` yields for column `c` of row `r`, read as a number. -/
-def cellOfC (ve : ValExpr) (columns : List String) (r : List PyVal) (c : String) : Option Int :=
-  match index c columns with
+def cellOfC (ve : ValExpr) (ie : ColIndexExpr) (columns : List String) (r : List PyVal) (c : String) : Option Int :=
+  match posOf ie c columns with
   | some i => num (r.getD i .none)
   | none =>
     match ve with
@@ -434,7 +486,16 @@ def render (P : Program) (keyCols : List String) : Op → OutC (List PyVal) →
 backed (`lazy`) or materialised; `idxs[g]` are the positions of the key columns of object `g`. -/
 def runCallsF (P : Program) (fr : Frame) (lazy : Bool) (objs : List (List String)) (idxs : List (List Nat))
     (calls : List (Nat × Op)) : List (Except String (List String × List (List PyVal))) :=
-  (calls.zip (runCallsC P (identOf pyHashKey P.key) (fun g => keyAt (idxs.getD g [])) (cellOfC P.value fr.columns)
+  (calls.zip (runCallsC P (identOf pyHashKey P.key) (fun g => keyAt (idxs.getD g [])) (cellOfC P.value P.colIndex fr.columns)
+      (if lazy then .gen fr.rows false else .list fr.rows) (fun _ => ObjState.empty) calls)).map fun co =>
+    render P (objs.getD co.1.1 []) co.1.2 co.2
+
+/-- `runCallsF` for frames whose key columns hold equal values written differently (`1`, `1.0`, `True`):
+the dictionaries find a group by `identKeyOf`, the key a result row shows is the one stored by the first
+row of the group. -/
+def runCallsEqF (P : Program) (fr : Frame) (lazy : Bool) (objs : List (List String)) (idxs : List (List Nat))
+    (calls : List (Nat × Op)) : List (Except String (List String × List (List PyVal))) :=
+  (calls.zip (runCallsC P (identKeyOf P.key) (fun g => keyAt (idxs.getD g [])) (cellOfC P.value P.colIndex fr.columns)
       (if lazy then .gen fr.rows false else .list fr.rows) (fun _ => ObjState.empty) calls)).map fun co =>
     render P (objs.getD co.1.1 []) co.1.2 co.2
 
